@@ -25,6 +25,10 @@ def gen_graph(rng, defects=None, n_chrom=None, id_style=None, scaffolds=None, ki
                 ok = False
         if ok:
             return g
+    if kinds != ["snp", "ins", "del", "bridge"]:
+        # fall back to bubble kinds with at most one haplotype node per bubble (always a clear majority)
+        return gen_graph(rng, defects=defects, n_chrom=n_chrom, id_style=id_style, scaffolds=max(2, scaffolds or 2),
+                         kinds=["snp", "ins", "del", "bridge"], end_style="leaf", names=names, singletons=singletons)
     raise RuntimeError("could not generate a graph with a clear SN majority per component")
 
 
